@@ -46,7 +46,8 @@ func IndexStartOptimize(pipe []*gripql.GraphStatement) []*gripql.GraphStatement 
 				newPipe = append(newPipe, pipe[i+1:]...)
 				return IndexStartOptimize(newPipe)
 			}
-			if cond := s.Has.GetCondition(); cond != nil {
+			// a condition on a mark ("$name._gid") is not a filter on the current element
+			if cond := s.Has.GetCondition(); cond != nil && jsonpath.GetNamespace(cond.Key) == jsonpath.Current {
 				path := jsonpath.GetJSONPath(cond.Key)
 				switch path {
 				case "$.gid":
